@@ -72,8 +72,11 @@ TRunEnd == /\ Ev.ev = "RunEnd" /\ Ev.err = "" /\ AllIdle
            /\ kind = "json" => RunComplete
            /\ UNCHANGED vars
 
+\* the provider wrapper's events belong to C11 (ammo-object ownership): no meaning here
+TOther == Ev.ev \in {"Acquire", "Release"} /\ UNCHANGED vars
+
 TraceNext == /\ l <= Len(Trace)
-             /\ (TRun \/ TNewGun \/ TBind \/ TShootBegin \/ TRecv \/ TSample \/ TShootEnd \/ TRunEnd)
+             /\ (TRun \/ TNewGun \/ TBind \/ TShootBegin \/ TRecv \/ TSample \/ TShootEnd \/ TRunEnd \/ TOther)
              /\ l' = l + 1
              /\ Mark
 
